@@ -187,6 +187,14 @@ static void emit_corpus(int mode) {
       if (mode == 0) body = std::string(1, (char)(i & 0xff)) + std::string(1, (char)(i >> 8)) + in + "." + b64u_enc(sig);
       else body = std::string(1, (char)(i & 0xff)) + std::string(1, (char)(i >> 8)) + std::string(1, (char)0) + std::string(1, (char)(h.size() & 0xff)) + std::string(1, (char)(h.size() >> 8)) + std::string(1, (char)(pay.size() & 0xff)) + std::string(1, (char)(pay.size() >> 8)) + h + pay + sig;
       std::string fn = std::string(d) + "/algshape-" + std::to_string(i) + "-" + std::to_string(n++); FILE *f = fopen(fn.c_str(), "wb"); if (f) { fwrite(body.data(), 1, body.size(), f); fclose(f); } } }
+  // unknown alg names of lengths around the size of the library's message buffer (256) and far beyond
+  for (size_t i = 0; i < CFGS.size(); i += 5) { const Cfg &c = *CFGS[i]; jwt_alg_t a = c.k ? cfg_alg(c) : JWT_ALG_NONE; int n = 0;
+    for (size_t len : {200, 239, 240, 241, 255, 256, 257, 300, 1000, 5000, 20000}) {
+      std::string h = "{\"alg\":\"" + std::string(len, 'Q') + "\",\"typ\":\"JWT\"}", pay = "{\"iss\":\"issuer\"}", in = b64u_enc(h) + "." + b64u_enc(pay);
+      std::string sig = c.k ? ref_sign(*c.k, a, in) : std::string(), body;
+      if (mode == 0) body = std::string(1, (char)(i & 0xff)) + std::string(1, (char)(i >> 8)) + in + "." + b64u_enc(sig);
+      else body = std::string(1, (char)(i & 0xff)) + std::string(1, (char)(i >> 8)) + std::string(1, (char)0) + std::string(1, (char)(h.size() & 0xff)) + std::string(1, (char)(h.size() >> 8)) + std::string(1, (char)(pay.size() & 0xff)) + std::string(1, (char)(pay.size() >> 8)) + h + pay + sig;
+      std::string fn = std::string(d) + "/alglong-" + std::to_string(i) + "-" + std::to_string(n++); FILE *f = fopen(fn.c_str(), "wb"); if (f) { fwrite(body.data(), 1, body.size(), f); fclose(f); } } }
   // valid tokens for a checker whose callback refuses them (selector bit 12)
   for (size_t i = 0; i < CFGS.size(); i += 2) { const Cfg &c = *CFGS[i]; jwt_alg_t a = c.k ? cfg_alg(c) : JWT_ALG_NONE; static KeySpec dummy; size_t sel = i | 0x1000 | ((i & 4) ? 0x8000 : 0);
     std::string h = std::string("{\"alg\":\"") + (a == JWT_ALG_NONE ? "none" : jwt_alg_str(a)) + "\",\"kid\":\"unknown\"}", pay = "{\"iss\":\"issuer\",\"sub\":\"subject\",\"aud\":\"audience\",\"n\":[1,{\"deep\":[true,null]}]}", in = b64u_enc(h) + "." + b64u_enc(pay);
